@@ -10,7 +10,7 @@ CONSTANTS
   BFKinds = {"bool", "char", "schar", "uchar", "short", "ushort", "int", "uint", "long", "ulong", "llong", "ullong"}
   EnumOps = {"eu", "es", "eul", "el", "efs", "efuc"}
   EnumBFs = {"eu", "es", "eul", "efs"}
-  Devs = {"CompositeIsFirst", "ArrayQualOnArrayType"}
+  Devs = {"CompositeIsFirst", "ArrayQualOnArrayType", "FoldedCondKeepsDecay", "FoldedNullVoidPtrIsNpc"}
   CondCVs = {"x", "1", "0", "1.5", "0.0", "0x100000000"}
   Forms = {"bin", "cond", "un", "lit", "flt", "chr"}
   Emit = TRUE
